@@ -638,7 +638,10 @@ var keyAlphabet = []string{"a", "b", "foo", "k1", "key-7", "zz"}
 
 // TTL alphabet of C09: 0, small, large relative, 30-day boundary, absolute future, absolute past.
 func (g *Gen) TTL(now int64) uint32 {
-	switch g.r.Intn(10) {
+	switch g.r.Intn(11) {
+	case 10:
+		// dates beyond 2^31 (year 2038 and later) up to the top of the 32-bit field
+		return []uint32{2147483647, 2147483648, 3000000000, 4294967294, 4294967295}[g.r.Intn(5)]
 	case 9:
 		return uint32(now) + thirtyDays + 1000 + uint32(g.r.Intn(100000)) // absolute, more than 30 days ahead
 	case 0, 1:
